@@ -152,6 +152,16 @@ class Rig:
         self.det_pool = sched.make_det_pool(self.ctl)
         self.real_pool = sched.make_real_pool(self.ctl)
         warnings.simplefilter("ignore")
+        self.warm_up()
+
+    def warm_up(self):
+        """CPython 3.12 switches per-instruction tracing on lazily: the very first traced run of a process
+        sees fewer opcode events than every later one.  Two throw-away scheduled runs make a run a function
+        of (configuration, pool size, seed, p_switch) alone, so that recorded schedules can be replayed."""
+        import random
+        for kind in ("ccube", "xcube"):
+            cfg = gen_cfg(random.Random(0), kind, 3, aggs="one")
+            self.calculate(self.cube(cfg), self.funcs(cfg), "det", poolsize=2, seed=0)
 
     # -- objects
     def cube(self, cfg):
